@@ -433,6 +433,8 @@ impl PatchChain {
         let loaded_archives: Result<Vec<_>> = archives
             .par_iter()
             .map(|(path, priority)| {
+                #[cfg(wowrs_verif)]
+                crate::verif::verif_yield("patch_chain_parallel_open");
                 let path_ref = path.as_ref();
                 Archive::open(path_ref).map(|archive| ChainEntry {
                     archive,
@@ -472,6 +474,8 @@ impl PatchChain {
         let new_archives: Result<Vec<_>> = archives
             .par_iter()
             .map(|(path, priority)| {
+                #[cfg(wowrs_verif)]
+                crate::verif::verif_yield("patch_chain_parallel_open");
                 let path_ref = path.as_ref();
                 Archive::open(path_ref).map(|archive| ChainEntry {
                     archive,
